@@ -205,6 +205,7 @@ type interpreter struct {
 	fstarted        bool
 	locks           map[*value]*lockInfo
 	pools           map[*value][]value
+	syncMaps        map[*value][][2]value
 	lockEvents      int
 	atomicOps       int
 	atomicHook      func(fr *frame, p *value, write bool)
@@ -265,6 +266,7 @@ func (i *interpreter) resetPath(prefix []int) {
 	i.pcHasF = false
 	i.locks = nil
 	i.pools = nil
+	i.syncMaps = nil
 	i.atomicHook = nil
 	i.atomicLoaded = nil
 	i.known = map[int]bool{}
